@@ -167,6 +167,9 @@ structure DBI (σ : Type) where
   iter : σ → Bound → Bound → List KV
   riter : σ → Bound → Bound → List KV
   reopen : σ → σ
+  /-- what a REVERSE iterator delivers after `Seek(k)` (end bound kept).  The adapters re-position exactly as their constructors
+  do, so this is `riter` - except on badger, whose constructor marks an empty non-nil reverse start invalid while `Seek` does not. -/
+  seekR : σ → Bound → Bound → List KV := riter
 
 def memI : DBI MemDB :=
   { get := MemDB.get, load := MemDB.get, exist := fun db k => (db.get k).isSome, set := MemDB.set, del := MemDB.del,
@@ -181,7 +184,8 @@ def refI : DBI Ref :=
 len(start) == 0`).  Badger stores no empty key, so this IS the reference answer on every reachable store
 (theorem `bdg_riter_eq_ref`). -/
 def bdgI : DBI Ref :=
-  { refI with riter := fun m s e => match s with | some [] => [] | _ => Ref.riter m s e }
+  { refI with riter := fun m s e => match s with | some [] => [] | _ => Ref.riter m s e,
+              seekR := fun m s e => match s with | some [] => Ref.riter m none e | _ => Ref.riter m s e }
 
 /-- goleveldb: the reference (`Load` returns a nil value with the error since cf43a03) -/
 def ldbI : DBI Ref := refI
@@ -302,6 +306,49 @@ def prefixOp (p : Bytes) : BOp → BOp
 
 /-- a batch of a view after the calls `ops` (in call order) -/
 def prefixBatch (p : Bytes) (ops : List BOp) : List BOp := ops.map (prefixOp p)
+
+/-! ## step-wise iterators with `Seek` and `Domain` -/
+
+/-- an iterator as its user sees it: what it will still deliver, and its `Domain()` -/
+structure Cursor where
+  rest : List KV
+  s : Bound
+  e : Bound
+  rev : Bool
+  /-- a `prefixIterator`: its `valid` flag is set at creation and, the methods having value receivers, never changes -/
+  born : Bool := true
+deriving Repr
+
+/-- `Seek(k)` of memDBIterator / goLevelDBIterator / boltIterator / badgerIterator: restart at `k`, same end, same direction,
+`Domain()` becomes `(k, end)`; the answer is `Valid()`.  (The ORIGINAL start bound is forgotten: a seek below it delivers keys
+the iterator was not created over.) -/
+def seekStore {σ} (I : DBI σ) (db : σ) (c : Cursor) (k : Bound) : Cursor × Bool :=
+  let rest := if c.rev then I.seekR db k c.e else I.iter db k c.e
+  ({ c with rest := rest, s := k }, !rest.isEmpty)
+
+/-- `prefixIterator.Seek(k)`: a value receiver - the new source is assigned to a COPY, the caller's iterator is not moved; the
+answer is `valid-at-creation && Valid()` of a throw-away forward iterator `[prefix ++ k, end)` with the UNPREFIXED view end -/
+def seekView {σ} (I : DBI σ) (db : σ) (p : Bytes) (c : Cursor) (k : Bound) : Cursor × Bool :=
+  (c, c.born && !(I.iter db (some (p ++ bval k)) c.e).isEmpty)
+
+/-- `Next()` on an INVALID iterator: memDBIterator and prefixIterator return false, the three engine adapters panic -/
+def Engine.nextOnInvalidPanics (e : Engine) (view : Bool) : Bool := !view && e != .mem
+
+/-! ## `Batch.ValueSize()` as each adapter counts it -/
+
+inductive BEvent where
+  | set (vlen : Nat)
+  | del
+  | write
+  | reset
+
+/-- memBatch: bytes of the values + 1 per delete, unchanged by Write; goleveldb: never counted (always 0); bolt: one per op,
+cleared by Write/Commit (they end with Reset); badger: one per Set, cleared by Reset only -/
+def Engine.valueSize (e : Engine) (sz : Nat) : BEvent → Nat
+  | .set n => match e with | .mem => sz + n | .ldb => 0 | .bolt => sz + 1 | .bdg => sz + 1
+  | .del => match e with | .mem => sz + 1 | .ldb => 0 | .bolt => sz + 1 | .bdg => sz
+  | .write => match e with | .bolt => 0 | _ => sz
+  | .reset => 0
 
 /-- specification of a prefixed view: the entries under the prefix, prefix stripped -/
 def restrict (p : Bytes) (m : Ref) : Ref := (m.filter (fun kv => hasPrefix p kv.1)).map (strip p)
